@@ -942,6 +942,28 @@ def with_migrations(seed):
     return msprime.sim_mutations(ts, rate=4e-3, random_seed=seed % (2 ** 31) + 1)
 
 
+def redated_with_extras(inp):
+    """A tree sequence already dated by tsdate (so its node / mutation tables carry tsdate's own
+    default schema) whose rows were then annotated with further fields: re-dating it must keep
+    those fields (C02).  Added after seeded change C02-a was missed."""
+    import tsdate
+
+    from . import inputs
+    dated = tsdate.date(inp.ts, mutation_rate=inp.mu, max_iterations=2, record_provenance=False)
+    t = dated.dump_tables()
+    for table, tag in ((t.nodes, "n"), (t.mutations, "m")):
+        schema = table.metadata_schema
+        rows = []
+        for i, row in enumerate(table):
+            md = dict(row.metadata) if isinstance(row.metadata, dict) else {}
+            md["label"] = f"{tag}{i}"
+            if i % 3 == 0:
+                md["score"] = i / 7
+            rows.append(schema.validate_and_encode_row(md))
+        table.packset_metadata(rows)
+    return inputs.Inp(inp.name + "_redated", t.tree_sequence(), inp.mu, inp.Ne, inp.tags | {"redated"})
+
+
 def frame_corpus(ctx, k=1, big=False):
     """Inputs for C02 / C04: the seeded corpus of vt/inputs.py, plain (msprime's own schemas, known
     mutation times) and decorated (see `decorate`), plus an input with migrations."""
@@ -949,6 +971,8 @@ def frame_corpus(ctx, k=1, big=False):
     seed = ctx.seed
     base = inputs.diploid(seed, k=k) + inputs.contemporaneous(seed, k=k, small=not big) + inputs.polytomies(seed, k=1)
     base += inputs.historical(seed, k=1) + inputs.internal_samples(seed, k=1)
+    # node ids not in time order (tsinfer / SLiM / subset() style numbering); added after seed C04-a
+    base += [inputs.renumbered(c, seed) for c in inputs.contemporaneous(seed + 1, k=1, small=True)]
     out = []
     for i, inp in enumerate(base):
         if i % 2 == 0 or not ctx.quick:
@@ -956,6 +980,12 @@ def frame_corpus(ctx, k=1, big=False):
         dec = decorate(tie_parents(inp.ts), seed + i, edge_md=(i % 3 == 0))
         out.append(inputs.Inp(inp.name + "_dec", dec, inp.mu, inp.Ne,
                               inp.tags | {"decorated"} | ({"edge_md"} if i % 3 == 0 else set())))
+    try:
+        out.append(redated_with_extras(base[1 if len(base) > 1 else 0]))
+        if not ctx.quick:
+            out.append(redated_with_extras(base[0]))
+    except Exception:  # noqa: BLE001  (a corpus input that cannot be dated at all is C35's business)
+        pass
     try:
         mig = with_migrations(seed)
         if mig.num_migrations and mig.num_mutations:
